@@ -182,6 +182,10 @@ def apply_edit(p, v, op, n):
         regen.write(j(lib, 'n%d.c' % n), 'int n%d;\n' % n)
     elif op == 'add_other':
         regen.write(j(lib, 'notes%d.txt' % n), 'x\n')
+    elif op == 'add_extra':
+        # a file only the extra= glob of the search matches (not a result,
+        # but part of the distribution list the build files carry)
+        regen.write(j(lib, 'x%d.h' % n), '#define X%d 1\n' % n)
     elif op == 'remove_match':
         c = sorted(x for x in os.listdir(lib) if x.endswith('.c') and
                    x not in ('s.c',))
@@ -334,7 +338,9 @@ def main(argv):
                 ['edit_toolchain', 'add_match'], ['mkdir_gen', 'add_gen'],
                 # a searched directory disappears / is renamed
                 ['mkdir_sub', 'add_in_sub', 'rmdir_sub', 'add_match'],
-                ['mkdir_sub', 'add_in_sub', 'rename_sub', 'add_in_sub']]
+                ['mkdir_sub', 'add_in_sub', 'rename_sub', 'add_in_sub'],
+                # a change only the extra= / not-now side of a search sees
+                ['add_other', 'add_extra'], ['add_extra', 'add_match']]
     variants = ['find', 'findrec', 'findrec2', 'hdrdir', 'sub', 'pkg',
                 'missingbase', 'toolchain', 'custom']
     for v in variants:
